@@ -261,6 +261,21 @@ pub fn judge_header(x: &Vec<u8>, st: &mut Stats) -> Verdict {
         if sec != section {
             return Err(Fail::new("section-content", shape_tlv(section), "Header::tlvs()", "section bytes of the raw input", "different bytes"));
         }
+        // the TLV section of copies of the header (to_owned, and clone_from onto a longer owned header) is the same section
+        let owned = h.to_owned();
+        let mut long_bytes = crate::oracle::v2::SIG.to_vec();
+        long_bytes.extend_from_slice(&[0x21, 0x31, 0x01, 0x2c]);
+        long_bytes.extend(fill(0x51, 300));
+        let mut slot = ppp::v2::Header::try_from(&long_bytes[..]).map(|l| l.to_owned()).unwrap_or_else(|_| h.to_owned());
+        slot.clone_from(h);
+        for (name, copy) in [("Header::to_owned().tlvs()", &owned), ("clone_from copy .tlvs()", &slot)] {
+            let it = copy.tlvs();
+            let cs: &[u8] = it.as_bytes();
+            if cs != section {
+                return Err(Fail::new("copy-section-content", shape_tlv(section), name, format!("the same {} section bytes", section.len()), format!("{} bytes", cs.len())));
+            }
+            walk(cs, copy.tlvs(), name)?;
+        }
         Ok(())
     }) {
         Ok(v) => v,
